@@ -40,6 +40,7 @@ CONSTANTS
  NodeTeardown = TRUE
  MayVanish = TRUE
  SweepRelays = TRUE
+ E2E = TRUE
  Aead = TRUE
  CheckIdent = TRUE
  AutoTimers = FALSE
@@ -48,6 +49,7 @@ INVARIANT DebugStop
 INVARIANT ExitIntegrity
 INVARIANT ReturnIntegrity
 INVARIANT LayerDepth
+INVARIANT E2ELayers
 INVARIANT NoRepeatOnLinks
 INVARIANT ExitOnlyOwn
 INVARIANT NoShadow
@@ -260,12 +262,15 @@ def spec_projection(st):
         return list(f.items())
     for n, f in items(st["circ"]):
         out["circ"][n] = sorted(({"cid": c, "goal": v["goal"], "hops": [h["peer"] for h in v["hops"]], "unv": v["unv"]["peer"],
-                                  "closing": v["closing"], "early": v["early"]} for c, v in items(f)), key=lambda x: x["cid"])
+                                  "closing": v["closing"], "early": v["early"], "ctype": v["ctype"],
+                                  "hs": v["hs"]["st"] != "none"} for c, v in items(f)), key=lambda x: x["cid"])
     for n, f in items(st["relay"]):
-        out["relay"][n] = sorted(({"cid": c, "to": v["to"], "next": v["next"], "dir": v["dir"], "early": v["early"]}
+        out["relay"][n] = sorted(({"cid": c, "to": v["to"], "next": v["next"], "dir": v["dir"], "early": v["early"],
+                                   "rdv": v["rdv"]}
                                   for c, v in items(f)), key=lambda x: x["cid"])
     for n, f in items(st["exit"]):
-        out["exit"][n] = sorted(({"cid": c, "prev": v["prev"], "pk": v["pk"], "enabled": v["enabled"], "open": v["open"]}
+        out["exit"][n] = sorted(({"cid": c, "prev": v["prev"], "pk": v["pk"], "enabled": v["enabled"], "open": v["open"],
+                                  "queued": len(v["q"])}
                                  for c, v in items(f)), key=lambda x: x["cid"])
     for n, f in items(st["retryC"]):
         out["retryC"][n] = sorted(({"cid": c, "ident": v["ident"], "tries": v["tries"], "alts": list(v["alts"]),
